@@ -174,12 +174,13 @@ def flatten(res):
     return out
 
 
-def check_query(rec, fs, reg, layout, files, q, excl_names, excl_periods, case, tag="find"):
+def check_query(rec, fs, reg, layout, files, q, excl_names, excl_periods, case, tag="find",
+                whole_case=False):
     start, end = uniso(q["start"]), uniso(q["end"])
     s = start or dt.datetime.min
     e = end or dt.datetime.max
     want = fm.visible(reg, layout, s, e, q["filters"], excl_names, excl_periods)
-    sub = dict(case, queries=[q])
+    sub = case if whole_case else dict(case, queries=[q])
     rec.ev()
     rec.count(tag + ".calls")
     # the caller owns one filter dictionary per query and passes that object to every search made with
@@ -404,13 +405,31 @@ def run_group(rec, rng, case, do_membership=True, do_zip=True):
             sub = dict(case, layouts=[all_json[li]])
             if reuse:
                 sub["prev_layouts"] = all_json[:li]
+            # population history: files (whole new directories among them) that arrive while the object
+            # is in use are held back outside the tree and moved in after the first queries
+            late = {p for p, f in reg.items() if f["id"] in set(case.get("late_ids", []))}
+            hold = root + "-late"
+            for p in late:
+                os.renames(p, hold + p[len(root):])
+            cur = {p: f for p, f in reg.items() if p not in late} if late else reg
+            cur_files = [f for f in files if f["id"] not in set(case.get("late_ids", []))] if late else files
             for qi, q in enumerate(case["queries"]):
+                if late and qi == case.get("late_after", 0):
+                    for p in late:
+                        os.renames(hold + p[len(root):], p)
+                    cur, cur_files = reg, files
+                    rec.count("find.populations_grown_between_searches")
                 if q["filters"] and not layout.with_sat:
                     continue
-                got = check_query(rec, fs, reg, layout, files, q, set(names), periods, sub)
-                if got is not None and not q["filters"]:
+                got = check_query(rec, fs, cur, layout, cur_files, q, set(names), periods,
+                                  dict(sub, queries=case["queries"][:qi + 1]) if late else sub,
+                                  whole_case=bool(late))
+                if got is not None and not q["filters"] and cur is reg:
                     ids = sorted(reg[p]["id"] for p in got)
                     answers.setdefault(qi, []).append((layout.dirs_name, ids))
+            if late and cur is not reg:   # (fewer queries than the arrival index)
+                for p in late:
+                    os.renames(hold + p[len(root):], p)
             if do_membership:
                 check_membership(rec, fs, reg, layout, files, rng, set(names), periods, sub)
                 check_interleaved(rec, fs, reg, layout, files, case["queries"], set(names), periods, sub)
@@ -535,6 +554,9 @@ def gen_group(rng):
     case = make_case(layouts, files, names_idx, periods, queries)
     if len(layouts) > 1 and not names_idx and rng.random() < 0.5:
         case["reuse_object"] = True  # one FileSet object, its path reassigned from layout to layout
+    elif len(layouts) == 1 and len(files) >= 2 and len(queries) >= 4 and rng.random() < 0.3:
+        case["late_ids"] = sorted(f["id"] for f in rng.sample(files, rng.randrange(1, len(files))))
+        case["late_after"] = rng.randrange(1, len(queries) - 1)
     return case
 
 
